@@ -160,6 +160,28 @@ pub fn run(em: &mut Emit, thorough: bool, seed: u64) {
         SData::StructVariant("E", 3, "D", vec![("x", SData::F64(1.0)), ("y", SData::U128(1))]),
         SData::StructVariant("E", 3, "D", vec![]),
     ];
+    // long and deep data: sizes around buffer / chunk thresholds, nesting to depth 40
+    for &n in &[15usize, 16, 17, 31, 32, 33, 64, 65, 255, 256, 257, 1000] {
+        fixed.push(SData::Seq((0..n).map(|i| SData::I64(i as i64)).collect(), n % 2 == 0));
+        fixed.push(SData::Tuple((0..n).map(|i| SData::U8((i % 256) as u8)).collect()));
+        fixed.push(SData::Str("é".repeat(n)));
+        fixed.push(SData::Bytes((0..n).map(|i| (i % 256) as u8).collect()));
+        fixed.push(SData::Map((0..n).map(|i| (SData::I64(i as i64), SData::Str(format!("v{}", i)))).collect(), true, n % 2 == 1));
+        fixed.push(SData::Map((0..n).map(|i| (SData::Str(format!("k{}", i % (n - 1))), SData::U64(i as u64))).collect(), false, true));
+    }
+    for depth in [8usize, 16, 32, 40] {
+        let mut d = SData::I8(1);
+        for i in 0..depth {
+            d = match i % 5 {
+                0 => SData::Seq(vec![d], true),
+                1 => SData::Some(Box::new(d)),
+                2 => SData::Map(vec![(SData::Str("k".into()), d)], true, true),
+                3 => SData::NewtypeVariant("E", 1, "B", Box::new(d)),
+                _ => SData::Struct("S", vec![("f", d)]),
+            };
+        }
+        fixed.push(d);
+    }
     for _ in 0..40 {
         fixed.push(SData::Duration(rand_duration(&mut rng)));
         fixed.push(SData::Timestamp(rand_timestamp(&mut rng)));
